@@ -30,6 +30,9 @@ func ParseFile(filename string) (interface{}, error) {
 	return astData, nil
 }
 
+// maxFixedStringLength is the largest accepted n in char[n] / zchar[n].
+const maxFixedStringLength = 1 << 24
+
 // PacketDslVisitorImpl visits parse tree nodes and constructs model.Packet and model.Field.
 type PacketDslVisitorImpl struct {
 	*gen.BasePacketDslVisitor
@@ -51,7 +54,15 @@ func (v *PacketDslVisitorImpl) metaDataDeclarationToMetaData(ctx *gen.MetaDataDe
 			Type: ctx.Type_().GetText(),
 		}
 	} else if ctx.Type_().FixedString() != nil {
-		size, _ := strconv.Atoi(ctx.Type_().FixedString().DIGITS().GetText())
+		size, err := strconv.Atoi(ctx.Type_().FixedString().DIGITS().GetText())
+		if err != nil || size > maxFixedStringLength {
+			v.BinModel.AddSyntaxError(&model.SyntaxError{
+				Line:   ctx.GetStart().GetLine(),
+				Column: ctx.GetStart().GetTokenSource().GetCharPositionInLine(),
+				Msg:    "Fixed string length " + ctx.Type_().FixedString().DIGITS().GetText() + " is out of range for " + ctx.GetName().GetText(),
+			})
+			size = 0
+		}
 		if strings.Contains(ctx.Type_().GetText(), "zchar") {
 			attr = &model.FixedStringFieldAttribute{
 				Length:  size,
@@ -464,7 +475,15 @@ func (v *PacketDslVisitorImpl) metaDataDeclarationToField(ctx *gen.MetaDataDecla
 			Type: ctx.Type_().GetText(),
 		}
 	} else if ctx.Type_().FixedString() != nil {
-		size, _ := strconv.Atoi(ctx.Type_().FixedString().DIGITS().GetText())
+		size, err := strconv.Atoi(ctx.Type_().FixedString().DIGITS().GetText())
+		if err != nil || size > maxFixedStringLength {
+			v.BinModel.AddSyntaxError(&model.SyntaxError{
+				Line:   ctx.GetStart().GetLine(),
+				Column: ctx.GetStart().GetTokenSource().GetCharPositionInLine(),
+				Msg:    "Fixed string length " + ctx.Type_().FixedString().DIGITS().GetText() + " is out of range for " + ctx.GetName().GetText(),
+			})
+			size = 0
+		}
 		if strings.Contains(ctx.Type_().GetText(), "zchar") {
 			attr = &model.FixedStringFieldAttribute{
 				Length:  size,
